@@ -2,6 +2,7 @@
 pub mod args;
 pub mod client;
 pub mod env;
+pub mod fault;
 pub mod kabi;
 pub mod ops;
 #[cfg(not(feature = "asyncio"))]
